@@ -53,7 +53,8 @@ local function getH() emit("getH") return H end
 local function getKS() emit("getKS") return KS end
 local function negone() emit("negone") return -1 end
 local function lens() emit("lens") return "a" end
-local KV = "x""#;
+local KV = "x"
+local F = {off = false, on = true, n = 5}"#;
 
 impl<'a> G<'a> {
     pub fn new(rng: &'a mut Rng, opts: Opts) -> Self {
@@ -294,6 +295,47 @@ impl<'a> G<'a> {
         }
     }
 
+    /// a condition of an if-expression whose results matter: truthy at run time more often than not
+    fn ifx_condition(&mut self, d: usize) -> String {
+        match self.rng.below(7) {
+            0 => "true".to_owned(),
+            1 => "(not false)".to_owned(),
+            2 => "flag1()".to_owned(),
+            3 => "F.on".to_owned(),
+            4 => "T.x".to_owned(),
+            5 => "false".to_owned(),
+            _ => self.boolean(d),
+        }
+    }
+
+    /// then-result; the flag says "may be falsy at run time"
+    fn ifx_then_result(&mut self, d: usize) -> (String, bool) {
+        match self.rng.below(9) {
+            0 => ("nil".to_owned(), true),
+            1 => ("false".to_owned(), true),
+            2 => ("F.off".to_owned(), true),
+            3 => ("(not true)".to_owned(), true),
+            4 => ("flag1()".to_owned(), true),
+            5 => (self.boolean(d), true),
+            6 => ((*self.rng.pick(&["1", "\"s\"", "{}", "true", "0"])).to_owned(), false),
+            7 => ("F.n".to_owned(), false),
+            _ => (self.num(d), false),
+        }
+    }
+
+    /// else-result; the flag says "statically nil"
+    fn ifx_else_result(&mut self, d: usize) -> (String, bool) {
+        match self.rng.below(8) {
+            0 | 1 => ("nil".to_owned(), true),
+            2 => ("(nil)".to_owned(), true),
+            3 => ("false".to_owned(), false),
+            4 => ("F.zz".to_owned(), false),
+            5 => ("F.off".to_owned(), false),
+            6 => (self.num(d), false),
+            _ => (self.any(d), false),
+        }
+    }
+
     /// any value, including falsy if-expression results
     pub fn any(&mut self, d: usize) -> String {
         match self.rng.below(6) {
@@ -301,14 +343,28 @@ impl<'a> G<'a> {
             1 => self.string(d),
             2 => self.boolean(d),
             3 => {
+                // then-result and else-result drawn INDEPENDENTLY from
+                // {nil, false, falsy at run time but unknown, truthy literal, truthy unknown} x
+                // {nil, (nil), false, number, unknown}; conditions that are truthy at run time often;
+                // alone or as the LAST elseif of a chain (the rule folds the chain from that end)
                 self.tag("if-expression-falsy");
-                let c = self.boolean(d.saturating_sub(1));
-                let b = self.num(d.saturating_sub(1));
-                match self.rng.below(4) {
-                    0 => format!("(if {} then nil else {})", c, b),
-                    1 => format!("(if {} then false else {})", c, b),
-                    2 => format!("(if {} then {} else nil)", c, b),
-                    _ => format!("(if {} then {{}} else {})", c, b),
+                let c = self.ifx_condition(d.saturating_sub(1));
+                let (t, t_falsy) = self.ifx_then_result(d.saturating_sub(1));
+                let (e, e_nil) = self.ifx_else_result(d.saturating_sub(1));
+                if t_falsy && e_nil {
+                    self.tag("if-expression-falsy-result-nil-else");
+                }
+                if self.rng.chance(1, 3) {
+                    self.tag("if-expression-falsy-last-elseif");
+                    let c0 = match self.rng.below(3) {
+                        0 => "false".to_owned(),
+                        1 => "F.off".to_owned(),
+                        _ => self.boolean(d.saturating_sub(1)),
+                    };
+                    let a = self.num(d.saturating_sub(1));
+                    format!("(if {} then {} elseif {} then {} else {})", c0, a, c, t, e)
+                } else {
+                    format!("(if {} then {} else {})", c, t, e)
                 }
             }
             4 => {
